@@ -344,6 +344,10 @@ FEATURES = {
     "deep-condition-1500": _FH + "led = Led(5)\nif " + " + ".join(["1"] * 1500) + " > 0:\n    led.on()\n",
     "deep-condition-2400": _FH + "led = Led(5)\nif " + " + ".join(["1"] * 2400) + " > 0:\n    led.on()\n",
     "feat-deep-condition-300": _FH + "led = Led(5)\nif " + " + ".join(["1"] * 300) + " > 0:\n    led.on()\n",
+    # two unrelated scripts with a helper of the same NAME that needs a second (float) variant in both: transpiled side by side in
+    # two threads, each still gets its own variants
+    "thr-scale-a": _FH + "def scale(v):\n    return v * 2\ndef clampv(v):\n    if v > 9:\n        return 9\n    return v\nlow = scale(3)\ngain = scale(2.5)\ntop = clampv(4)\ncap = clampv(4.5)\nmon.write(gain + low + top + cap)\n",
+    "thr-scale-b": _FH + "led = Led(5)\ndef scale(v):\n    return v + 1\ndef clampv(v):\n    return v\nwhile True:\n    step = scale(7)\n    ratio = scale(0.25)\n    keep = clampv(1)\n    frac = clampv(0.5)\n    mon.write(ratio + step + keep + frac)\n    led.toggle()\n",
     "merge-many-devices": _FH + "la = Led(3)\nlb = Led(4)\nlc = Led(5)\nsa = Servo(9)\nsb = Servo(10)\nra = RGBLed(6, 7, 8)\nba = Button(11)\nbb = Button(12)\nbz = Buzzer(2)\nwhile True:\n    la.toggle()\n    lb.on()\n    lc.off()\n    sa.write(10)\n    sb.write(20)\n    ra.set_color(1, 2, 3)\n    bz.beep(440, 5, 5, 2)\n    mon.write(ba.is_pressed())\n    mon.write(bb.is_pressed())\n",
 }
 EXPECT_REJECT = {k for k in FEATURES if k.startswith("rej-")}
@@ -351,7 +355,7 @@ FEATURE_GROUPS = [["feat-swap-loop", "rej-swap-then-break", "feat-swap-for"], ["
                   ["feat-swap-many", "rej-swap-loop-then-align", "feat-swap-loop"], ["feat-swap-for", "rej-conflict-after-defs", "feat-swap-fn"],
                   ["merge-ret-lists", "merge-ret-num", "rej-ret-str-num"], ["merge-list-elems", "merge-ternary", "merge-call-sites"],
                   ["merge-many-devices", "merge-ret-lists", "rej-swap-then-break"],
-                  ["feat-builtin-const", "feat-loop-promotions", "feat-loop-promotions-rev"], ["feat-lookalike-names", "merge-many-devices", "feat-lookalike-names"], ["feat-try-hoist", "feat-swap-loop", "feat-loop-promotions"], ["deep-condition-1500", "feat-deep-condition-300", "deep-condition-2400"], ["feat-builtin-const", "merge-ternary", "feat-swap-loop"]]
+                  ["feat-builtin-const", "feat-loop-promotions", "feat-loop-promotions-rev"], ["feat-lookalike-names", "merge-many-devices", "feat-lookalike-names"], ["feat-try-hoist", "feat-swap-loop", "feat-loop-promotions"], ["thr-scale-a", "thr-scale-b", "feat-swap-fn"], ["deep-condition-1500", "feat-deep-condition-300", "deep-condition-2400"], ["feat-builtin-const", "merge-ternary", "feat-swap-loop"]]
 
 
 def _twin(src: str, rng: random.Random) -> str | None:
